@@ -136,6 +136,10 @@ func roundTripCase(c *core.Ctx, idx int, mode int) {
 			// rejected decodes of damaged encodings of the previous value, on the instances the
 			// next round trips use: a decode that fails half-way must leave nothing behind
 			for k := 0; k < 2; k++ {
+				if k == 0 && idx%5 == 1 && j%4 == 1 {
+					sweepDamage(c, tc.p, tc.typ, prev)
+					sweepDamage(c, sharedInst(tc), tc.typ, prev)
+				}
 				bad := damage(rv, prev)
 				for _, p := range []*plenc.Plenc{tc.p, sharedInst(tc)} {
 					junk := reflect.New(tc.typ)
@@ -770,6 +774,29 @@ func damage(r *rand.Rand, data []byte) []byte {
 	return bad
 }
 
+// sweepDamage decodes copies of data that are damaged at every byte position in turn (the byte set to
+// 0xff, raised by one, lowered by one: lengths that run past their field, counts that are off by
+// one, tags that change index or wire type) into throw-away targets of type typ on p. Whatever these
+// decodes return, they are only there to fail at every depth of the message - inside map keys, between
+// key and value, in the middle of a nested struct - before the next ordinary call (round 12: k03).
+func sweepDamage(c *core.Ctx, p *plenc.Plenc, typ reflect.Type, data []byte) {
+	if len(data) == 0 || len(data) > 400 {
+		return
+	}
+	bad := make([]byte, len(data))
+	for i := range data {
+		for _, nb := range []byte{0xff, data[i] + 1, data[i] - 1} {
+			copy(bad, data)
+			bad[i] = nb
+			junk := reflect.New(typ)
+			if err, pn := unmarshal(p, bad, junk.Interface()); err != nil || pn != "" {
+				c.Rec.Count("rejected_decodes_of_byte_sweeps", 1)
+			}
+		}
+	}
+	c.Rec.Count("byte_sweeps", 1)
+}
+
 // checkWire compares Marshal's bytes with the model's
 func checkWire(c *core.Ctx, tc *tcase, v reflect.Value, data []byte) {
 	rec := c.Rec
@@ -905,7 +932,7 @@ func init() {
 	}
 	genRule := "types: seeded random struct/slice/map/pointer compositions built with reflect (depth<=3, indexes over the 1/2-byte tag boundaries, flat/intern/proto options, json tags, skipped and unexported fields) plus a committed library of named, recursive, mutually recursive and embedding types; " +
 		"values: boundary-biased (every varint group edge, width limits, -0/NaN/denormals, strings around the 1/2/3-byte length prefixes, nil/empty/zero-keyed containers, zoned and monotonic times, null.* presence, JSON-any trees); four Plenc configurations. " +
-		"Every third value also goes through a long-lived instance per configuration that has built the codecs of all earlier cases; between the values of a case, damaged encodings (cut, bit flipped, continuation bit set) of the previous value are decoded on both instances, whatever they return. " +
+		"Every third value also goes through a long-lived instance per configuration that has built the codecs of all earlier cases; between the values of a case, damaged encodings (cut, bit flipped, continuation bit set; in a fifth of the cases every byte position in turn set to 0xff, raised and lowered by one) of the previous value are decoded on both instances, whatever they return. " +
 		"Every seventh struct type is padded to encodings of every size from b-12 to b+1 for b = 128, 16384 (thorough: also 2^21) and nested as field, pointer target, slice element, map value and proto map value of a struct inside an outer struct. Every 509th case round-trips a container with 70 001 - 1 200 017 entries (strings, structs, pointers, byte slices, times, nested slices, map entries; plain and proto-tagged). Descriptor() of the type is asked for between the calls of a case. Every 37th case (C01) registers a codec for a type the instance has already used at top level and round-trips through it; in a fifth of the cases one comparison comes after a garbage collection and 40 000 small allocations. " +
 		"Every 16th case is a struct with a field at every index of a window of 24 consecutive indexes (windows in turn from 0 upwards: 0..11999 in the quick tier, up to the 100000 of known finding D29 in the thorough one), with a low and a far field beside it. Every 13th case runs on an instance whose time.Time codec is the BigQuery timestamp codec (element codec of []time.Time, value codec of maps). The intern option also sits on slices and maps. " +
 		"A case is non-trivial when its value has a non-zero scalar, non-empty container or non-nil pointer; distinct = distinct (type, configuration, value-shape class) hashes."
